@@ -33,7 +33,7 @@ SEARCH_CAP = 300000
 
 UNARY = ["floor", "ceil", "trunc", "round", "rint", "lrint", "llrint", "fabs", "abs", "signbit", "isnan", "isinf", "isfinite"]
 BINARY = ["copysign", "fmin", "fmax", "fdim", "fmod", "remainder", "nextafter"]
-CT_SMALL_ONLY = {"floor", "ceil", "trunc", "round", "lrint", "llrint"}     # cast through long long at compile time
+CT_SMALL_ONLY = {"lrint", "llrint"}     # the result must fit the integer type: larger values are not constant expressions
 UNARY_APPROX = ["sqrt", "exp", "log", "log2", "log10", "log1p", "sin", "cos", "tan", "asin", "acos", "atan", "sinh", "cosh",
                 "tanh", "asinh", "acosh", "atanh", "erf", "tgamma", "lgamma"]
 BINARY_APPROX = ["pow", "atan2", "hypot", "beta"]
@@ -55,7 +55,8 @@ ASSUMPTIONS = ["glibc 2.36 libm / libstdc++ 12 on x86-64 in the default rounding
                "lrint/llrint of NaN, infinities and out-of-range values is unspecified and masked",
                "the sign of a zero result of remainder(x, y) with x != 0 is not compared (glibc 2.36 deviates from IEC 60559 for some subnormal y)",
                "compiler builtins (__builtin_floorf, ...) are assumed to implement the C function they name (DESIGN §3); observed on every explored input"]
-TRUSTED = ["hand model Tetl/C16/Model.lean (dispatch + fallbacks) tied to the source by the correspondence run (R1) on every run",
+TRUSTED = ["hand model Tetl/C16/Model.lean (dispatch + fallbacks) and, for the constant-evaluated gcem floor/ceil/trunc/round and rint/lrint "
+           "fallbacks, Tetl/C13/Model.lean (imported: one model of that code for C13 and C16), tied to the source by the correspondence run (R1) on every run",
            "bit-level spec Tetl/C16/Spec.lean validated against glibc (R2) on every run",
            "g++ constant evaluator for the constexpr tables"]
 
@@ -68,9 +69,9 @@ UNPROVED_OBSERVED = (["%s (run time: ulps vs glibc, tolerance in harness/c16_tol
 CORRESPONDENCE_ONLY = ["lrint, llrint (spec = intMag .halfEven with range check; the theorems are about rint/intMag, the integer conversion itself has none)",
                        "fdim (spec: correctly rounded x-y via rne; no theorem about rne)",
                        "fmod, remainder (spec: mag x % mag y re-encoded by ofMag; no theorem that ofMag decodes back)",
-                       "gcem floor/ceil/trunc/round on the constant-evaluated path (model gcemFloor.. mirrors gcem incl. its defects; counterexample theorems only, no *_partial theorem)",
-                       "rint_fallback / lrint_fallback on the constant-evaluated path (model = code; no theorem)",
-                       "fmod, remainder on the constant-evaluated path (gcem x - trunc(x/y)*y: not modelled, known finding)"]
+                       "rint_fallback / lrint_fallback on the constant-evaluated path (model = Tetl.C13.Model.rintFallback / lrintFallback, the one model of "
+                       "that code; value by correspondence, totality proved by C13: Tetl.C13.Props.rintFallback_total)",
+                       "fmod, remainder on the constant-evaluated path (gcem x - trunc(x/y)*y: not modelled, known finding F-C16-gcem-fmod-constexpr)"]
 
 TOLERANCES = "see harness/c16_tol.inc; measured maxima are written to evidence input_distribution by thorough runs"
 
@@ -431,20 +432,6 @@ def classify(case, k, row):
     """finding id for a failing (impl != spec) case; the predicates are the hypotheses of the *_partial theorems"""
     op, d, w = _args(case.lines[k])
     f = d.get("f", "")
-    eb, mb = FMT[w]
-    bias = (1 << (eb - 1)) - 1
-    if op in ("u", "cu") and f in ("fabs", "abs"):
-        x = int(d["x"]) % (1 << w)
-        if x == 1 << (w - 1):                                   # exactly -0.0
-            return "F-C16-abs-negative-zero"
-    if op == "cu" and f in ("floor", "ceil", "trunc", "round"):
-        x = int(d["x"]) % (1 << w)
-        s, e, m = fields(x, w)
-        a = x & ((1 << (w - 1)) - 1)
-        if 0 < a < ((bias - mb) << mb):                         # 0 < |x| < epsilon: gcem returns x itself
-            return "F-C16-gcem-rounding-constexpr"
-        if f in ("ceil", "trunc") and s == 1 and ((bias - mb) << mb) <= a < (bias << mb):   # -1 < x <= -epsilon: +0 instead of -0
-            return "F-C16-gcem-rounding-constexpr"
     if op == "cb" and f in ("fmod", "remainder"):
         return "F-C16-gcem-fmod-constexpr"
     if op == "a" and f in GCEM_RT and "x" in d:
@@ -467,7 +454,7 @@ def group_of(case):
     return case.tag
 
 
-CLAIMED = False  # temporarily: model of the constant-evaluated gcem rounding path must be reconciled with the C13 fixes on main
+CLAIMED = True
 TECHNIQUE = ("Lean 4 proof of a bit-level IEEE-754 specification (all formats) + three-way correspondence "
              "etl = Lean spec = glibc on up to all 2^32 float patterns; approximating functions: differential only")
 LEVEL_TEXT = ("The exact cmath functions (floor, ceil, trunc, round, rint, lrint/llrint, fabs/abs, copysign, signbit, fmin, fmax, fdim, "
@@ -485,14 +472,15 @@ LEVEL_NOTE = ("Partial (DESIGN §6): sqrt, exp, log*, pow, trigonometric/hyperbo
               "complex functions, lerp, midpoint and fma have no Lean model; they are compared with glibc/libstdc++ within a measured "
               "tolerance and listed under coverage.unproved_observed. Run-time paths that call a compiler builtin are assumed to "
               "implement the C function (observed on every explored input). Members with a spec but no theorem: "
-              "coverage.correspondence_only. Known findings: abs(-0.0), gcem's constant-evaluated floor/ceil/trunc/round/fmod.")
+              "coverage.correspondence_only. Known findings: gcem's constant-evaluated fmod/remainder, gcem series outside their "
+              "working range. The gcem rounding theorems need mbits <= 62 (integer part within long long): binary32/64, not long double.")
 P = "Tetl.C16.Props."
 THEOREMS = {
     "u": [P + n for n in ("floor_spec", "ceil_spec", "trunc_spec", "round_spec", "rint_spec", "rounding_special", "rnd_exact",
                           "intMag_trunc", "intMag_away", "intMag_halfAway", "intMag_halfEven", "classify_partition",
-                          "fabs_spec", "isfinite_eq", "absImpl_eq_partial")],
-    "cu": [P + n for n in ("signbitFallback_eq", "gcemFloor_counterexample", "gcemCeil_counterexample",
-                           "gcemTrunc_counterexample", "gcemRound_counterexample", "absImpl_counterexample")],
+                          "fabs_spec", "isfinite_eq", "absImpl_eq", "absImpl_nan")],
+    "cu": [P + n for n in ("signbitFallback_eq", "gcemFloor_eq", "gcemCeil_eq", "gcemTrunc_eq", "gcemRound_eq", "std_cv",
+                           "absImpl_eq", "absImpl_nan")],
     "b": [P + n for n in ("copysign_spec", "fmin_model_eq", "fmax_model_eq", "fmin_spec", "fmax_spec", "fmin_nan",
                           "nextafter_model_eq", "nextafter_adjacent", "nextafter_special", "key_is_value_order", "mag_strict_mono")],
     "cb": [P + n for n in ("copysignFallback_eq", "nextafter_model_eq", "fmin_model_eq", "fmax_model_eq")],
